@@ -66,6 +66,33 @@ pub struct StatefulEncoder<W, E, T = SpecificCharacterSet> {
 
 pub type DynStatefulEncoder<'w> = StatefulEncoder<Box<dyn Write + 'w>, DynEncoder<'w, dyn Write>>;
 
+
+/// The byte which pads a value of the given value representation to an even length:
+/// a space for the textual value representations,
+/// NUL for unique identifiers and for everything else (binary data, unknown),
+/// even when the value at hand is given as text.
+fn padding_byte(vr: VR) -> u8 {
+    match vr {
+        VR::AE
+        | VR::AS
+        | VR::CS
+        | VR::DA
+        | VR::DS
+        | VR::DT
+        | VR::IS
+        | VR::LO
+        | VR::LT
+        | VR::PN
+        | VR::SH
+        | VR::ST
+        | VR::TM
+        | VR::UC
+        | VR::UR
+        | VR::UT => b' ',
+        _ => b'\0',
+    }
+}
+
 impl<W, E, T> StatefulEncoder<W, E, T> {
     pub fn new(to: W, encoder: E, text: T) -> Self {
         StatefulEncoder {
@@ -275,7 +302,7 @@ where
         let mut encoded_value = self.convert_text_untrailed(text, de.vr)?;
         // pad to even length
         if encoded_value.len() % 2 == 1 {
-            let pad = if de.vr == VR::UI { b'\0' } else { b' ' };
+            let pad = padding_byte(de.vr);
             encoded_value.push(pad);
         }
 
@@ -315,7 +342,7 @@ where
         }
         // pad to even length
         if self.buffer.len() % 2 == 1 {
-            let pad = if de.vr == VR::UI { b'\0' } else { b' ' };
+            let pad = padding_byte(de.vr);
             self.buffer.push(pad);
         }
 
